@@ -32,15 +32,23 @@ pub fn run(ctx: &Ctx) -> bool {
         "C07" => c07::run(ctx),
         "C08" => {
             c08::run(ctx);
+            c08::run_pool_variant(ctx);
             c08::fuzz(ctx)
         }
         "C09" => c09::run(ctx),
         "C10" => c10::run(ctx),
         "C11" => c11::run(ctx),
         "C12" => c12::run(ctx),
-        "C13" => c13::run(ctx),
+        "C13" => {
+            c13::run(ctx);
+            c13::run_generated(ctx);
+            c13::run_generated_http(ctx)
+        }
         "C14" => c14::run(ctx),
-        "C15" => c15::run(ctx),
+        "C15" => {
+            c15::run(ctx);
+            c15::run_pools(ctx)
+        }
         "C16" => c16::run(ctx),
         "C17" => {
             c17::run(ctx);
